@@ -650,6 +650,7 @@ class Interproc:
             # struct fields (numeric leaves one or two levels deep)
             if ty0["k"] in ("adt", "tuple"):
                 fl = {}
+                frl = {}
                 for steps, ftix in self._num_leaves(tix0):
                     if isinstance(ftix, tuple):
                         t = ("len", 0, steps)
@@ -670,8 +671,15 @@ class Interproc:
                                 al = ("n", pt, 0)
                                 break
                     fl[steps] = (i, al)
+                    # upper bounds of the leaf by parameter terms (`(text, consumed)`: consumed <= data.len())
+                    if al is None and val[0] == "n" and val[1] is not None:
+                        for pt in self._param_terms(b, st):
+                            d1 = st.bound_diff(val[1], pt)
+                            if d1 is not None and abs(d1) <= (1 << 20):
+                                frl[(steps, pt)] = d1 + val[2]
                 if ret["fields"] is None:
                     ret["fields"] = fl
+                    ret["frels"] = frl
                 else:
                     merged = {}
                     for k, (i, al) in ret["fields"].items():
@@ -679,6 +687,7 @@ class Interproc:
                             i2, al2 = fl[k]
                             merged[k] = (absdom.iv_join(i, i2), al if al == al2 else None)
                     ret["fields"] = merged
+                    ret["frels"] = {k: max(c_, frl[k]) for k, c_ in (ret.get("frels") or {}).items() if k in frl}
             first = False
         return ret
 
@@ -1285,6 +1294,12 @@ class Interproc:
                         st.add_eq(("n", t, 0), w)
                 if an.mag and steps in (ret.get("taint") or ()):
                     st.taint = st.taint | {t}
+            for (steps, pt), c_ in (ret.get("frels") or {}).items():
+                if steps[:1] == ("len",) or steps not in fl:
+                    continue
+                w = self.instantiate_term(an, ctx, pt)
+                if w is not None and w[0] == "n":
+                    st.add_le(("n", ("v", d[0], d[1] + steps), 0), w, c_)
             return "stored"
         return None
 
